@@ -27,6 +27,7 @@ import (
 	"github.com/youchainhq/go-youchain/common"
 	"github.com/youchainhq/go-youchain/core"
 	"github.com/youchainhq/go-youchain/core/state"
+	"github.com/youchainhq/go-youchain/core/types"
 	"github.com/youchainhq/go-youchain/core/vm"
 	"github.com/youchainhq/go-youchain/crypto"
 	"github.com/youchainhq/go-youchain/params"
@@ -315,7 +316,12 @@ func (cp *compiler) compile(c *Code) []byte {
 			push1(&b, 0)
 			b.WriteByte(0xfd)
 		case "invalid":
-			switch a.Flavor % 3 {
+			switch a.Flavor % 4 {
+			case 3: // out of gas: JUMPDEST PUSH2 here JUMP
+				here := b.Len()
+				b.WriteByte(0x5b)
+				push2(&b, here)
+				b.WriteByte(0x56)
 			case 0:
 				b.WriteByte(0xfe)
 			case 1:
@@ -1848,6 +1854,337 @@ func blockCase(r *vf.Rng) *Case {
 	return c
 }
 
+// ---- call-tree shapes ----------------------------------------------------------------
+//
+// A shape is a small call tree.  Every node is a contract of its own whose code is
+//   effect, [call child, effect]*, ending
+// with kind in {CALL, CALLCODE, DELEGATECALL, STATICCALL, CREATE} (how the parent enters
+// it), ending in {ok, revert, invalid, out of gas}, effects in {none, SSTORE to the slot
+// of the subtree, SSTORE to another slot, LOG, value transfer}.  Nothing else is
+// emitted, so an SSTORE can be the journal entry right before a frame boundary and
+// right after a failed child, and children can journal exactly one effect and fail.
+// DELEGATECALL / CALLCODE nodes run on the storage of their parent.
+const (
+	effNone = iota
+	effSame
+	effOther
+	effLog
+	effValue
+)
+const (
+	endOk = iota
+	endRevert
+	endInvalid
+	endOog
+)
+const (
+	kCall = iota
+	kCallCode
+	kDelegate
+	kStatic
+	kCreate
+)
+
+type shapeNode struct {
+	kind, end int
+	effects   []int // len(children)+1
+	children  []*shapeNode
+}
+
+type shapeBuilder struct {
+	g      *gen
+	slot   int
+	val    int
+	next   uint64
+	funded Addr
+}
+
+func (sb *shapeBuilder) effect(e int) []Act {
+	switch e {
+	case effSame:
+		sb.val++
+		return []Act{{Op: "sstore", K: fmt.Sprintf("%d", sb.slot), V: fmt.Sprintf("%d", sb.val)}}
+	case effOther:
+		sb.val++
+		return []Act{{Op: "sstore", K: fmt.Sprintf("%d", 100+sb.slot), V: fmt.Sprintf("%d", sb.val)}}
+	case effLog:
+		return []Act{{Op: "log", Topics: []string{fmt.Sprintf("%d", sb.slot)}, Dlen: 0}}
+	case effValue:
+		return []Act{{Op: "call", Kind: 0, Gas: "0", To: &sb.funded, V: "1"}}
+	}
+	return nil
+}
+
+// build emits the code of node n (children first) and returns the action by which
+// the parent enters it.
+func (sb *shapeBuilder) build(n *shapeNode, depth int) Act {
+	var acts []Act
+	acts = append(acts, sb.effect(n.effects[0])...)
+	for i, ch := range n.children {
+		acts = append(acts, sb.build(ch, depth+1))
+		acts = append(acts, sb.effect(n.effects[i+1])...)
+	}
+	end := n.end
+	if n.kind == kCreate && end == endOog {
+		end = endInvalid // CREATE hands over all gas: do not burn it in a loop
+	}
+	if n.kind == kCreate && depth <= 2 && end == endInvalid {
+		end = endRevert // ... and directly under the root a failing init code would starve the other shapes
+	}
+	switch end {
+	case endRevert:
+		acts = append(acts, Act{Op: "revert"})
+	case endInvalid:
+		acts = append(acts, Act{Op: "invalid", Flavor: sb.g.r.Intn(3)})
+	case endOog:
+		acts = append(acts, Act{Op: "invalid", Flavor: 3})
+	}
+	id := sb.g.addCode(acts, 0)
+	// bounded gas at every level: a failing frame burns what it was given, not the rest of the transaction
+	gas := []string{"1000000", "1000000", "1000000", "300000", "100000", "40000"}[depth]
+	if end == endOog {
+		gas = []string{"200000", "200000", "200000", "100000", "50000", "30000"}[depth]
+	}
+	if n.kind == kCreate {
+		return Act{Op: "create", Two: false, Salt: "0", V: "2", Init: id}
+	}
+	a := Addr{K: "b", N: sb.next}
+	sb.next++
+	sb.g.c.Accts = append(sb.g.c.Accts, Acct{A: a, Nonce: 1, Bal: "10", Code: id})
+	return Act{Op: "call", Kind: []int{0, 1, 2, 3}[n.kind], Gas: gas, To: &a, V: "0"}
+}
+
+func pickW(r *vf.Rng, w []int) int {
+	t := 0
+	for _, x := range w {
+		t += x
+	}
+	x := r.Intn(t)
+	for i, y := range w {
+		if x < y {
+			return i
+		}
+		x -= y
+	}
+	return 0
+}
+
+func randomShape(r *vf.Rng, depth int) *shapeNode {
+	effW := []int{35, 35, 8, 11, 11}
+	n := &shapeNode{kind: pickW(r, []int{20, 25, 30, 10, 15}), end: pickW(r, []int{35, 30, 20, 15})}
+	first := effW
+	if n.kind == kCallCode || n.kind == kDelegate {
+		// frames sharing the caller's storage: often nothing journalled before the first child,
+		// a rewrite of the slot right after it, and a failing end
+		first = []int{55, 25, 6, 7, 7}
+		effW = []int{25, 50, 8, 8, 9}
+		n.end = pickW(r, []int{25, 35, 25, 15})
+	}
+	n.effects = append(n.effects, pickW(r, first))
+	if depth < 4 {
+		for k := 0; k < 2; k++ {
+			if (k == 0 && r.Chance(75)) || (k == 1 && r.Chance(25)) {
+				n.children = append(n.children, randomShape(r, depth+1))
+				n.effects = append(n.effects, pickW(r, effW))
+			}
+		}
+	}
+	return n
+}
+
+// the systematic family: root effect e0, child P (kind, ending, effect p0, child C, effect p1), C (kind, ending, effect c0)
+const shapeTotal = 2 * 5 * 3 * 2 * 5 * 3 * 5 * 3
+
+func indexedShape(i int) (int, *shapeNode) {
+	d := func(m int) int { x := i % m; i /= m; return x }
+	e0 := []int{effNone, effSame}[d(2)]
+	kP := d(5)
+	oP := d(3)
+	p0 := []int{effNone, effSame}[d(2)]
+	kC := d(5)
+	oC := d(3)
+	c0 := d(5)
+	p1 := []int{effNone, effSame, effOther}[d(3)]
+	c := &shapeNode{kind: kC, end: oC, effects: []int{c0}}
+	return e0, &shapeNode{kind: kP, end: oP, effects: []int{p0, p1}, children: []*shapeNode{c}}
+}
+
+// shapeCase: one root contract runs several independent shapes one after the other,
+// each on a slot of its own.  first >= 0: the shapes with indices first, first+1, ... of
+// the systematic family; otherwise random ones of depth <= 4.
+func shapeCase(r *vf.Rng, first int, count int) *Case {
+	g := &gen{r: r, c: &Case{}, cp: &compiler{codes: map[int]*Code{}}, nextId: 1}
+	c := g.c
+	origin := Addr{K: "b", N: 0}
+	c.Origin = origin
+	root := Addr{K: "b", N: 1}
+	funded := Addr{K: "b", N: 20}
+	c.Accts = append(c.Accts, Acct{A: origin, Nonce: 1, Bal: "1000000000000000000"}, Acct{A: funded, Nonce: 0, Bal: "5"})
+	var acts []Act
+	var stor [][2]string
+	nextAddr := uint64(30)
+	for j := 0; j < count; j++ {
+		sb := &shapeBuilder{g: g, slot: j, val: 10 * (j + 1), next: nextAddr, funded: funded}
+		var e0 int
+		var p *shapeNode
+		if first >= 0 {
+			e0, p = indexedShape((first + j) % shapeTotal)
+		} else {
+			e0 = pickW(r, []int{25, 60, 5, 5, 5})
+			p = randomShape(r, 2)
+			if r.Chance(25) {
+				stor = append(stor, [2]string{fmt.Sprintf("%d", j), "7"})
+			}
+		}
+		acts = append(acts, sb.effect(e0)...)
+		acts = append(acts, sb.build(p, 2))
+		if first < 0 && r.Chance(30) {
+			acts = append(acts, sb.effect(pickW(r, []int{0, 60, 20, 10, 10}))...)
+		}
+		nextAddr = sb.next
+	}
+	c.Accts = append(c.Accts, Acct{A: root, Nonce: 1, Bal: "100", Code: g.addCode(acts, 0), Stor: stor})
+	c.To = root
+	c.Value = "0"
+	c.Gas = 30000000
+	c.Comment = "shape"
+	return c
+}
+
+// ---- StateDB histories -------------------------------------------------------------
+//
+// Operation sequences straight on the StateDB (no EVM): writes, logs, balance changes,
+// nested Snapshot / RevertToSnapshot, checked against plain copies of the observable
+// state taken at every snapshot.  Half of the histories follow the pattern "write k;
+// snapshot; [snapshot; effect; revert]; write k; revert" with nothing journalled between.
+type HOp struct {
+	Op string `json:"op"` // set log add snap revert
+	A  int    `json:"a,omitempty"`
+	K  int    `json:"k,omitempty"`
+	V  int    `json:"v,omitempty"`
+}
+
+type hview struct {
+	stor  map[[2]int]common.Hash
+	bal   map[int]string
+	nlogs int
+}
+
+func runHistory(ops []HOp) string {
+	db, err := state.New(common.Hash{}, common.Hash{}, common.Hash{}, state.NewDatabase(youdb.NewMemDatabase()))
+	if err != nil {
+		return ""
+	}
+	th := common.BytesToHash([]byte("c16-h"))
+	db.Prepare(th, common.Hash{}, 0)
+	addr := func(i int) common.Address { return baseAddr(uint64(500 + i)) }
+	for i := 0; i < 2; i++ {
+		db.SetNonce(addr(i), 1)
+		db.SetBalance(addr(i), big.NewInt(100))
+	}
+	db.Finalise(true)
+	view := func() hview {
+		v := hview{stor: map[[2]int]common.Hash{}, bal: map[int]string{}, nlogs: len(db.GetLogs(th))}
+		for a := 0; a < 2; a++ {
+			v.bal[a] = db.GetBalance(addr(a)).String()
+			for k := 0; k < 2; k++ {
+				v.stor[[2]int{a, k}] = db.GetState(addr(a), common.BigToHash(big.NewInt(int64(k))))
+			}
+		}
+		return v
+	}
+	type snap struct {
+		id int
+		v  hview
+	}
+	var stack []snap
+	for i, o := range ops {
+		switch o.Op {
+		case "set":
+			db.SetState(addr(o.A), common.BigToHash(big.NewInt(int64(o.K))), common.BigToHash(big.NewInt(int64(o.V))))
+		case "log":
+			db.AddLog(&types.Log{Address: addr(o.A)})
+		case "add":
+			db.AddBalance(addr(o.A), big.NewInt(int64(o.V)))
+		case "snap":
+			stack = append(stack, snap{db.Snapshot(), view()})
+		case "revert":
+			if len(stack) == 0 {
+				continue
+			}
+			top := stack[len(stack)-1]
+			stack = stack[:len(stack)-1]
+			db.RevertToSnapshot(top.id)
+			now := view()
+			for k, v := range top.v.stor {
+				if now.stor[k] != v {
+					return fmt.Sprintf("StateDB history: after RevertToSnapshot (op %d) slot %d of account %d reads %x, at the snapshot it read %x", i, k[1], k[0], now.stor[k], v)
+				}
+			}
+			for a, b := range top.v.bal {
+				if now.bal[a] != b {
+					return fmt.Sprintf("StateDB history: after RevertToSnapshot (op %d) balance of account %d is %s, at the snapshot %s", i, a, now.bal[a], b)
+				}
+			}
+			if now.nlogs != top.v.nlogs {
+				return fmt.Sprintf("StateDB history: after RevertToSnapshot (op %d) %d logs, at the snapshot %d", i, now.nlogs, top.v.nlogs)
+			}
+		}
+	}
+	return ""
+}
+
+func randomHistory(r *vf.Rng) []HOp {
+	effect := func() HOp {
+		switch r.Intn(4) {
+		case 0:
+			return HOp{Op: "log", A: r.Intn(2)}
+		case 1:
+			return HOp{Op: "add", A: r.Intn(2), V: 1 + r.Intn(3)}
+		}
+		return HOp{Op: "set", A: r.Intn(2), K: r.Intn(2), V: r.Intn(4)}
+	}
+	var ops []HOp
+	if r.Bool() {
+		// write k; outer snapshot; inner snapshots with one effect each, reverted; write k; outer revert
+		a, k := r.Intn(2), r.Intn(2)
+		for j := r.Intn(2); j > 0; j-- {
+			ops = append(ops, effect())
+		}
+		ops = append(ops, HOp{Op: "set", A: a, K: k, V: 1 + r.Intn(3)}, HOp{Op: "snap"})
+		for j := r.Intn(3); j > 0; j-- {
+			ops = append(ops, HOp{Op: "snap"})
+			for e := r.Intn(3); e > 0; e-- {
+				ops = append(ops, effect())
+			}
+			ops = append(ops, HOp{Op: "revert"})
+		}
+		ops = append(ops, HOp{Op: "set", A: a, K: k, V: 4 + r.Intn(3)})
+		if r.Chance(30) {
+			ops = append(ops, effect())
+		}
+		ops = append(ops, HOp{Op: "revert"})
+		return ops
+	}
+	depth := 0
+	for n := 4 + r.Intn(14); n > 0; n-- {
+		switch x := r.Intn(10); {
+		case x < 5:
+			ops = append(ops, effect())
+		case x < 7 && depth < 4:
+			ops = append(ops, HOp{Op: "snap"})
+			depth++
+		case depth > 0:
+			ops = append(ops, HOp{Op: "revert"})
+			depth--
+		}
+	}
+	for ; depth > 0; depth-- {
+		ops = append(ops, HOp{Op: "revert"})
+	}
+	return ops
+}
+
 // deepCase: a contract that calls itself until the depth limit (1024) stops it.
 func deepCase(r *vf.Rng) *Case {
 	c := &Case{Origin: Addr{K: "b", N: 0}, To: Addr{K: "b", N: 1}, Value: "0", Gas: 1 << 62, Comment: "deep recursion"}
@@ -1861,6 +2198,8 @@ func deepCase(r *vf.Rng) *Case {
 	return c
 }
 
+var corpusHistories [][]HOp
+
 func loadCorpus(dir string) []*Case {
 	var out []*Case
 	files, _ := filepath.Glob(filepath.Join(dir, "*.json"))
@@ -1871,9 +2210,14 @@ func loadCorpus(dir string) []*Case {
 			continue
 		}
 		var w struct {
-			Case *Case `json:"case"`
+			Case    *Case `json:"case"`
+			History []HOp `json:"history"`
 		}
 		var c Case
+		if json.Unmarshal(b, &w) == nil && len(w.History) > 0 {
+			corpusHistories = append(corpusHistories, w.History)
+			continue
+		}
 		if json.Unmarshal(b, &w) == nil && w.Case != nil {
 			c = *w.Case
 		} else if json.Unmarshal(b, &c) != nil {
@@ -1886,9 +2230,10 @@ func loadCorpus(dir string) []*Case {
 }
 
 type hit struct {
-	What string `json:"what"`
-	All  []string `json:"all"`
-	Case *Case  `json:"case"`
+	What    string   `json:"what"`
+	All     []string `json:"all"`
+	Case    *Case    `json:"case,omitempty"`
+	History []HOp    `json:"history,omitempty"`
 }
 
 // stable key of a violation: the text up to the first ':' or '('
@@ -1901,7 +2246,7 @@ func hitKey(s string) string {
 	return s
 }
 
-func genCmd(seed uint64, n int, outDir, corpusDir string) {
+func genCmd(seed uint64, n int, outDir, corpusDir, tier string) {
 	r := vf.NewRng(seed)
 	res := vf.NewResult("C16", seed)
 	var sb strings.Builder
@@ -1978,6 +2323,44 @@ func genCmd(seed uint64, n int, outDir, corpusDir string) {
 	}
 	if n >= 100 || r.Chance(10) {
 		add(deepCase(r))
+	}
+	// call-tree shapes: a random sample, and in the thorough tier this shard's slice of the systematic family
+	safeShape := func(first int) {
+		defer func() {
+			if rec := recover(); rec != nil {
+				res.Count(fmt.Sprintf("generator dropped: %v", rec))
+			}
+		}()
+		add(shapeCase(r, first, 8))
+		res.Count("call-tree shape cases (8 shapes each)")
+	}
+	for i := 0; i < n/6; i++ {
+		safeShape(-1)
+	}
+	if tier == "thorough" && n >= 100 {
+		const shards = 50
+		k := int(seed % shards)
+		if (seed-1)%7919 == 0 {
+			k = int((seed-1)/7919) % shards
+		}
+		per := (shapeTotal + shards - 1) / shards
+		for i := 0; i < per; i += 8 {
+			safeShape(k*per + i)
+		}
+		res.Count("systematic shape slices")
+	}
+	// StateDB-level histories (oracle only)
+	for _, ops := range corpusHistories {
+		if w := runHistory(ops); w != "" {
+			res.OracleHits = append(res.OracleHits, hit{What: "StateDB history: a revert did not restore the snapshot", All: []string{w}, History: ops})
+		}
+	}
+	for i := 0; i < 2*n; i++ {
+		ops := randomHistory(r)
+		if w := runHistory(ops); w != "" {
+			res.OracleHits = append(res.OracleHits, hit{What: "StateDB history: a revert did not restore the snapshot", All: []string{w}, History: ops})
+		}
+		res.Count("StateDB histories")
 	}
 	for count < n {
 		var c *Case
@@ -2061,7 +2444,7 @@ func genCmd(seed uint64, n int, outDir, corpusDir string) {
 	vf.WriteFile(filepath.Join(outDir, "Cases.v"), sb.String())
 	res.Cases = count
 	res.Distinct = len(distinct)
-	res.Rule = "random multi-contract programs (2-5 contracts + library of runtime/init codes, actions SSTORE/LOG/CALL/CALLCODE/DELEGATECALL/STATICCALL/CREATE/CREATE2/SELFDESTRUCT/REVERT/INVALID, call targets incl. missing, funded and CREATE/CREATE2-derived addresses, boundary gas arguments and values), compiled to byte code and run by the real EVM on a committed StateDB; gas allotment = plenty, or uniform below the gas used with plenty (out-of-gas at a random point), or a boundary; blocks of 1-6 transactions on one StateDB with Finalise(true) in between (a phased contract writing slots from small per-slot pools directly and through nested frames on its storage; any other case repeated two or three times); scenario families: call chains, static-context offenders, CREATE endings, repeated SELFDESTRUCT of the same contract with value arriving in between; one self-recursive case to the depth limit per shard; a case = program + transaction + observed status, gas left, all accounts, logs, refund, burnt value; non-trivial = executed at least one call/create opcode; distinct by full case text"
+	res.Rule = "random multi-contract programs (2-5 contracts + library of runtime/init codes, actions SSTORE/LOG/CALL/CALLCODE/DELEGATECALL/STATICCALL/CREATE/CREATE2/SELFDESTRUCT/REVERT/INVALID, call targets incl. missing, funded and CREATE/CREATE2-derived addresses, boundary gas arguments and values), compiled to byte code and run by the real EVM on a committed StateDB; gas allotment = plenty, or uniform below the gas used with plenty (out-of-gas at a random point), or a boundary; blocks of 1-6 transactions on one StateDB with Finalise(true) in between (a phased contract writing slots from small per-slot pools directly and through nested frames on its storage; any other case repeated two or three times); call-tree shapes (per node: kind CALL/CALLCODE/DELEGATECALL/STATICCALL/CREATE, ending ok/revert/invalid/out-of-gas, effects none/SSTORE same slot/SSTORE other slot/LOG/value before and after each child, nothing else emitted; random of depth <= 4 in every run, the 13500 three-level shapes enumerated over the 50 shards of the thorough tier); StateDB-level Snapshot/SetState/AddLog/AddBalance/Revert histories against plain copies (oracle only); scenario families: call chains, static-context offenders, CREATE endings, repeated SELFDESTRUCT of the same contract with value arriving in between; one self-recursive case to the depth limit per shard; a case = program + transaction + observed status, gas left, all accounts, logs, refund, burnt value; non-trivial = executed at least one call/create opcode; distinct by full case text"
 	res.Write(filepath.Join(outDir, "result.json"))
 }
 
@@ -2150,9 +2533,18 @@ func replayCmd(file string) {
 		os.Exit(2)
 	}
 	var w struct {
-		Case *Case `json:"case"`
+		Case    *Case `json:"case"`
+		History []HOp `json:"history"`
 	}
 	var c Case
+	if json.Unmarshal(b, &w) == nil && len(w.History) > 0 {
+		if hw := runHistory(w.History); hw != "" {
+			fmt.Println("ORACLE VIOLATION:", hw)
+			os.Exit(1)
+		}
+		fmt.Println("history replayed: every revert restored its snapshot")
+		return
+	}
 	if json.Unmarshal(b, &w) == nil && w.Case != nil {
 		c = *w.Case
 	} else if err := json.Unmarshal(b, &c); err != nil {
@@ -2187,11 +2579,12 @@ func main() {
 	out := flag.String("out", ".", "")
 	corpus := flag.String("corpus", "/verif/corpus/C16", "")
 	file := flag.String("file", "", "")
+	tier := flag.String("tier", "quick", "")
 	flag.Parse()
 	params.InitNetworkId(params.NetworkIdForTestCase)
 	switch mode {
 	case "gen":
-		genCmd(*seed, *n, *out, *corpus)
+		genCmd(*seed, *n, *out, *corpus, *tier)
 	case "table":
 		tableCmd(*out)
 	case "replay":
